@@ -28,6 +28,16 @@ pub fn adversaries() -> Vec<(String, Vec<u32>, &'static str)> {
         v.push((format!("unbalanced-open-{}", d), cps(&rep("(", d)), ""));
         v.push((format!("nested-quant-{}", d), cps(&format!("{}a{}", rep("(?:", d), rep(")*", d))), ""));
     }
+    // nests of small counts (each level is below the unroll threshold; the product is not)
+    for c in [2usize, 3, 5, 6] {
+        for d in [8usize, 16, 24, 40] {
+            let mk = |open: &str, q: &str| { let mut p = format!("a{}", q); for _ in 0..d { p = format!("{}{}){}", open, p, q); } p };
+            v.push((format!("small-count-nest-{}x{}", c, d), cps(&mk("(?:", &format!("{{{}}}", c))), ""));
+            v.push((format!("small-count-nest-cap-{}x{}", c, d), cps(&mk("(", &format!("{{{}}}", c))), "i"));
+            v.push((format!("small-range-nest-{}x{}", c, d), cps(&mk("(?:", &format!("{{1,{}}}", c))), "u"));
+            v.push((format!("small-count-nest-lazy-{}x{}", c, d), cps(&mk("(?:", &format!("{{{}}}?", c))), ""));
+        }
+    }
     for n in [100usize, 65535, 65536, 70000] {
         v.push((format!("many-groups-{}", n), cps(&rep("()", n)), ""));
         v.push((format!("many-loops-{}", n), cps(&rep("a*", n)), ""));
@@ -140,6 +150,20 @@ pub fn cmd_advfuzz(args: &[String]) {
             if r.chance(1, 4) { p.extend(cps("-")); p.push(*r.pick(&fold_stress)); }
             p.extend(cps(c));
             if r.chance(1, 4) { p.extend(cps(*r.pick(&["*", "+", "{2}", "?", "|a"]))); }
+        }
+        if r.chance(1, 8) {
+            // group pre-scan stress: the parser counts groups and collects their names in a first pass that must skip
+            // classes exactly as the main pass reads them; classes holding brackets and parentheses next to numbered
+            // and named groups, backreferences (also forward and dangling ones) and duplicate names
+            const META: &[&str] = &["[[]", "[^[]", "[(]", "[)]", "[(?<a>]", "[\\]]", "[[]]", "[\\[]", "[(?<a>x)]", "[{]", "[\\k<a>]", "[[a]b]", "[^[(]]", "[()]", "[\\]()]", "[[](]"];
+            const FOLLOW: &[&str] = &["(a)\\1", "(?<a>x)\\k<a>", "(?<a>x)(?<a>y)", "(?<a>x)|(?<a>y)", "\\k<a>(?<a>x)", "(x)\\2", "\\1(x)", "(?<a>.)\\k<b>", "(?<a>x)", "(x)(y)\\2", "(?:(?<a>x)|(?<a>y))\\k<a>"];
+            let mut t = String::new();
+            if r.chance(1, 3) { t.push_str(*r.pick(FOLLOW)); }
+            t.push_str(*r.pick(META));
+            if r.chance(1, 3) { t.push_str(*r.pick(&["+", "*", "?", "{2}"])); }
+            t.push_str(*r.pick(FOLLOW));
+            if r.chance(1, 4) { t.push_str(*r.pick(META)); }
+            p = cps(&t);
         }
         if r.chance(1, 10) {
             // inject a raw surrogate code point
